@@ -39,6 +39,7 @@ ASSUMPTIONS = [
 ]
 
 FUEL = 400000
+LAZY_FUEL = 2000     # bounds the nesting of generators, not the length of the stream
 
 
 # --------------------------------------------------------------------------
@@ -173,11 +174,11 @@ def gen_corr_case(rng):
 # --------------------------------------------------------------------------
 # correspondence with the Lean model
 
-def model_request(case):
+def model_request(case, verb='run'):
     w = G.wire_items(case)
     if w is None:
         return None
-    return proto.line(Atom('C12'), Atom('run'), FUEL, w)
+    return proto.line(Atom('C12'), Atom(verb), FUEL if verb == 'run' else LAZY_FUEL, w)
 
 
 def decode_model(ans):
@@ -192,10 +193,10 @@ def decode_model(ans):
     return [str(x) for x in m]
 
 
-def compare(cases, res, stream):
+def compare(cases, res, stream, verb='run'):
     lines, idx = [], []
     for i, c in enumerate(cases):
-        l = model_request(c)
+        l = model_request(c, verb)
         if l is None:
             res.count('model:path-outside-fragment')
             continue
@@ -273,6 +274,7 @@ def shard(arg):
         if key and len(key) < 1500:
             res.nontrivial.add(key)
     compare(cases, res, 'match-eager')
+    compare(cases, res, 'match-lazy', 'lazy')
     return res
 
 
